@@ -44,6 +44,8 @@ pub(crate) fn checked_mul_rounded(
                 n_frac_digits,
             })
         } else {
+            #[cfg(all(fpdec_verif, feature = "std"))]
+            fpdec_core::verif::emit(fpdec_core::verif::Event::Path("mulr:wide"));
             let coeff =
                 i128_mul_div_ten_pow_rounded(x.coeff, y.coeff, shift, None)?;
             Some(Decimal {
